@@ -39,10 +39,11 @@ const (
 	lcMaxInt63
 	lcTopBit
 	lcNonMinimal
+	lcAllOnes // 2^64-1 .. 2^64-3: top bit set, and -1..-3 when read as a signed number
 	nLenClasses
 )
 
-var lenClassNames = []string{"0", "1", "125", "126", "65535", "65536", "2^63-1", "top-bit", "non-minimal(5 as 16/64-bit)"}
+var lenClassNames = []string{"0", "1", "125", "126", "65535", "65536", "2^63-1", "top-bit", "non-minimal(5 as 16/64-bit)", "all-ones (2^64-1..2^64-3)"}
 
 type closeBody struct {
 	name  string
@@ -138,7 +139,7 @@ func classify(h int, readerIsServer, comp bool, f nextFrame) (class int, kind st
 	if f.Masked != readerIsServer {
 		kinds = append(kinds, "wrong-mask")
 	}
-	if f.LenCls == lcTopBit {
+	if f.LenCls == lcTopBit || f.LenCls == lcAllOnes {
 		topBit = true
 		kinds = append(kinds, "length-top-bit")
 	}
@@ -177,7 +178,13 @@ func init() {
 			"distinct = the enumerated cell; non-trivial = classified VIOLATION or LEGAL (UNSPECIFIED cells are executed for no-panic only)",
 		Variants:   core.PlainOnly,
 		Exhaustive: true,
-		Cases:      func(tier, variant string) int { return nHistories*2*2*16 + nHistories*2*2 },
+		Cases: func(tier, variant string) int {
+			n := nHistories*2*2*16 + nHistories*2*2
+			if tier == "thorough" {
+				return n + 400000
+			}
+			return n + 20000
+		},
 		Run:        runC04,
 		Required:   []string{"violating_frames_rejected", "legal_frames_accepted", "close_1002_seen"},
 		Assumptions: []string{
@@ -190,6 +197,10 @@ func init() {
 func runC04(ctx *core.Ctx, out *core.Out) {
 	idx := ctx.Idx
 	nMain := nHistories * 2 * 2 * 16
+	if idx >= nMain+nHistories*2*2 {
+		c04Random(ctx, out)
+		return
+	}
 	if idx < nMain {
 		op := idx % 16
 		st := idx / 16
@@ -296,6 +307,9 @@ func c04Case(ctx *core.Ctx, out *core.Out, h int, server, comp bool, f nextFrame
 		if f.Fin {
 			nf.LenForm = 64
 		}
+	case lcAllOnes:
+		n = 32
+		nf.HasClaim, nf.ClaimLen, nf.LenForm = true, ^uint64(0)-uint64(ctx.Idx%3), 64
 	}
 	if f.Body >= 0 {
 		nf.Payload = closeBodies[f.Body].body
@@ -494,4 +508,250 @@ func c04Case(ctx *core.Ctx, out *core.Out, h int, server, comp bool, f nextFrame
 	if ctx.Idx%97 == 0 && f.Fin && f.Rsv == 0 && f.LenCls == lc126 {
 		out.Sample(desc)
 	}
+}
+
+// c04Random: a generated conformant prefix (any number of messages, fragments,
+// interleaved controls; possibly ending inside a fragmented message) followed
+// by one frame drawn from the header alphabet that the receiver model classifies
+// as a VIOLATION, under random read buffer sizes, chunkings and read programs.
+func c04Random(ctx *core.Ctx, out *core.Out) {
+	r := ctx.R
+	server := r.Bool()
+	comp := r.Bool()
+	st := genStream(r, StreamOpts{FromClient: server, Comp: comp, MaxMsgs: 3, MaxSize: 400, Controls: true})
+	frames := st.Frames
+	exp := st.DataEvents()
+	// optionally cut the prefix inside the last message (=> in-message history)
+	inMsg := false
+	complete := len(exp)
+	if len(exp) > 0 && r.Chance(1, 2) {
+		last := exp[len(exp)-1]
+		if last.Last > last.First && !last.Comp {
+			cut := r.Range(last.First+1, last.Last) // keep frames [0,cut)
+			frames = frames[:cut]
+			inMsg = true
+			complete--
+		}
+	}
+	h := 0
+	if inMsg {
+		h = 3
+	}
+	var f nextFrame
+	var kind string
+	for try := 0; ; try++ {
+		f = nextFrame{Op: r.Intn(16), Fin: r.Bool(), Rsv: []int{0, 0, 0, 1, 2, 3, 4, 5, 6, 7}[r.Intn(10)], Masked: r.Chance(3, 4) == server, LenCls: r.Intn(nLenClasses), Body: -1}
+		if r.Chance(1, 5) {
+			f = nextFrame{Op: 8, Fin: true, Masked: server, LenCls: -1, Body: r.Intn(len(closeBodies))}
+		}
+		var class int
+		class, kind, _ = classify(h, server, comp, f)
+		if class == rmViolation && f.LenCls != lcTopBit && f.LenCls != lcAllOnes {
+			break
+		}
+		if try > 200 {
+			return
+		}
+	}
+	nf := wire.Frame{Op: f.Op, Fin: f.Fin, Rsv1: f.Rsv&4 != 0, Rsv2: f.Rsv&2 != 0, Rsv3: f.Rsv&1 != 0, Masked: f.Masked, Key: maskKey(r)}
+	if f.Body >= 0 {
+		nf.Payload = closeBodies[f.Body].body
+	} else {
+		n := []int{0, 1, 125, 126, 65535, 65536, 32, 32, 5, 32}[f.LenCls]
+		nf.Payload = bytes.Repeat([]byte("V"), n)
+		switch f.LenCls {
+		case lcMaxInt63:
+			nf.HasClaim, nf.ClaimLen, nf.LenForm = true, 1<<63-1, 64
+		case lcNonMinimal:
+			nf.LenForm = 16
+		}
+	}
+	stream := wire.Encode(frames)
+	stream = wire.Append(stream, nf)
+	mk := func(op int, p string) wire.Frame {
+		fr := wire.Frame{Op: op, Fin: true, Masked: server, Payload: []byte(p)}
+		if server {
+			fr.Key = maskKey(r)
+		}
+		return fr
+	}
+	stream = wire.Append(stream, mk(9, markerPing))
+	stream = wire.Append(stream, mk(1, markerText))
+	ex := rdExec{RB: r.BufSize(), Chunk: r.Intn(xport.NChunkStyles), Mode: r.Intn(3), Server: server, Comp: comp}
+	desc := map[string]interface{}{"prefix": framesDesc(frames, 16), "in_message": inMsg, "frame": f, "kind": kind, "exec": ex}
+	if ex.Mode == 2 {
+		c04Abandon(ctx, out, stream0(frames, nf, server, r), exp, complete, inMsg, ex, kind, desc)
+		return
+	}
+	out.Eval(fmt.Sprintf("rnd|%x|%s", core.Hash(string(stream)), core.J(ex)), true)
+	fail := func(sig, what string) {
+		desc["bytes"] = core.Trunc(stream, 400)
+		out.Violate("C04:"+sig+":"+kind, what, desc)
+	}
+	nc := xport.New(xport.Rechunk(stream, ex.Chunk, r))
+	c := ws.VerifNewConn(nc, server, ex.RB, 4096, nil, nil, comp)
+	rd := &Reader{C: c}
+	rd.InstallRecordingHandlers()
+	var termErr error
+	delivered := 0
+	for i := 0; i < len(exp)+4; i++ {
+		var typ int
+		var data []byte
+		var err error
+		if ex.Mode == 0 {
+			typ, data, err = c.ReadMessage()
+		} else {
+			var rr io.Reader
+			typ, rr, err = c.NextReader()
+			if err == nil {
+				data, err = io.ReadAll(rr)
+			}
+		}
+		if err != nil {
+			termErr = err
+			if inMsg && len(data) > 0 && !bytes.HasPrefix(exp[complete].Data, data) {
+				fail("violating-payload-delivered", "bytes that are not part of the interrupted message reached the application")
+				return
+			}
+			if bytes.Contains(data, []byte("VVVV")) || bytes.Contains(data, []byte(markerText)) {
+				fail("violating-payload-delivered", "payload of the violating frame (or of a later frame) reached the application")
+				return
+			}
+			break
+		}
+		if delivered >= complete {
+			fail("delivered-after-violation", fmt.Sprintf("message %d (%d bytes, type %d) was reported complete at or after the violating frame", delivered, len(data), typ))
+			return
+		}
+		if typ != exp[delivered].Kind || !bytes.Equal(data, exp[delivered].Data) {
+			fail("earlier-message-lost", fmt.Sprintf("message %d before the violation was altered", delivered))
+			return
+		}
+		delivered++
+	}
+	out.Count("violating_frames_rejected", 1)
+	if termErr == nil {
+		fail("violation-accepted", "no error was reported for a stream with a framing violation")
+		return
+	}
+	if delivered != complete {
+		fail("earlier-message-lost", fmt.Sprintf("%d messages were complete before the violation, %d were delivered; then %v", complete, delivered, termErr))
+		return
+	}
+	for _, hv := range rd.Handlers {
+		if hv.Payload == markerPing || (nf.Op >= 8 && len(nf.Payload) > 0 && hv.Payload == string(nf.Payload)) {
+			fail("handler-called-for-violating-frame", fmt.Sprintf("handler %d invoked with the payload of the violating frame or of a later frame", hv.Kind))
+			return
+		}
+	}
+	for i := 0; i < 3; i++ {
+		if _, _, e := c.NextReader(); e == nil || e.Error() != termErr.Error() {
+			fail("error-not-sticky", fmt.Sprintf("later NextReader returned %v, first error %v", e, termErr))
+			return
+		}
+	}
+	wf, rest, werr := wire.Decode(nc.Written())
+	closes := 0
+	for _, w := range wf {
+		if w.Op == 8 {
+			closes++
+			if code, _, _ := wire.CloseBody(w.Payload); code != 1002 {
+				fail("close-status", fmt.Sprintf("close sent with status %d, expected 1002", code))
+				return
+			}
+		}
+	}
+	if werr != nil || len(rest) > 0 || closes != 1 {
+		fail("close-1002-missing", fmt.Sprintf("%d close frames written back, expected exactly one with status 1002", closes))
+		return
+	}
+	out.Count("close_1002_seen", 1)
+	out.Count("random_prefix_cases", 1)
+}
+
+func stream0(frames []wire.Frame, nf wire.Frame, server bool, r interface{ Fill([]byte) }) []byte {
+	b := wire.Encode(frames)
+	b = wire.Append(b, nf)
+	mk := func(op int, p string) wire.Frame {
+		fr := wire.Frame{Op: op, Fin: true, Masked: server, Payload: []byte(p)}
+		if server {
+			r.Fill(fr.Key[:])
+		}
+		return fr
+	}
+	b = wire.Append(b, mk(9, markerPing))
+	return wire.Append(b, mk(1, markerText))
+}
+
+// c04Abandon: the application abandons messages (reads a prefix or nothing and
+// calls NextReader again). The violating frame must still be refused: the number
+// of messages NextReader hands out cannot exceed those begun before it.
+func c04Abandon(ctx *core.Ctx, out *core.Out, stream []byte, exp []Ev, complete int, inMsg bool, ex rdExec, kind string, desc map[string]interface{}) {
+	r := ctx.R
+	out.Eval(fmt.Sprintf("rnd-abandon|%x|%s", core.Hash(string(stream)), core.J(ex)), true)
+	fail := func(sig, what string) {
+		desc["bytes"] = core.Trunc(stream, 400)
+		out.Violate("C04:"+sig+":"+kind, what, desc)
+	}
+	nc := xport.New(xport.Rechunk(stream, ex.Chunk, r))
+	c := ws.VerifNewConn(nc, ex.Server, ex.RB, 4096, nil, nil, ex.Comp)
+	rd := &Reader{C: c}
+	rd.InstallRecordingHandlers()
+	begun := complete
+	if inMsg {
+		begun++
+	}
+	opened := 0
+	var termErr error
+	for i := 0; i < len(exp)+4; i++ {
+		typ, rr, err := c.NextReader()
+		if err != nil {
+			termErr = err
+			break
+		}
+		if opened >= begun {
+			b, _ := io.ReadAll(rr)
+			fail("delivered-after-violation", fmt.Sprintf("NextReader handed out message %d (type %d, %d bytes readable) although only %d messages begin before the violating frame", opened, typ, len(b), begun))
+			return
+		}
+		k := r.Range(0, len(exp[opened].Data))
+		if r.Chance(1, 3) {
+			k = 0
+		}
+		buf := make([]byte, k)
+		n, _ := io.ReadFull(rr, buf)
+		if typ != exp[opened].Kind || !bytes.Equal(buf[:n], exp[opened].Data[:n]) {
+			fail("earlier-message-lost", fmt.Sprintf("abandoned message %d delivered a non-prefix", opened))
+			return
+		}
+		opened++
+	}
+	out.Count("violating_frames_rejected", 1)
+	out.Count("abandon_cases", 1)
+	if termErr == nil {
+		fail("violation-accepted", "no error was reported for a stream with a framing violation (application abandons messages)")
+		return
+	}
+	for _, hv := range rd.Handlers {
+		if hv.Payload == markerPing {
+			fail("handler-called-for-violating-frame", "the ping after the violating frame reached its handler")
+			return
+		}
+	}
+	wf, _, _ := wire.Decode(nc.Written())
+	closes := 0
+	for _, w := range wf {
+		if w.Op == 8 {
+			closes++
+			if code, _, _ := wire.CloseBody(w.Payload); code != 1002 {
+				fail("close-status", fmt.Sprintf("close sent with status %d, expected 1002", code))
+				return
+			}
+		}
+	}
+	if closes != 1 {
+		fail("close-1002-missing", fmt.Sprintf("%d close frames written back, expected exactly one with status 1002", closes))
+		return
+	}
+	out.Count("close_1002_seen", 1)
 }
